@@ -96,7 +96,7 @@ def campaign(ctx, target, prop, seed_globs, runs, dict_file=None, max_len=4096, 
     stats["executions"] = done
     stats["wall_s"] = round(time.monotonic() - t0, 1)
     stats["crashes"] = len(crashes)
-    from .engine import Fail
+    out = []
     for f, loc, msg in crashes:
         src = os.path.join(arts, f)
         data = open(src, "rb").read()
@@ -105,17 +105,28 @@ def campaign(ctx, target, prop, seed_globs, runs, dict_file=None, max_len=4096, 
         os.makedirs(d, exist_ok=True)
         dst = os.path.join(d, "fuzz-%s-%s.bin" % (target, sha))
         shutil.copy(src, dst)
-        sig = "%s/panic@%s" % (prop, loc) if loc else "%s/fuzz-crash" % prop
-        if ctx.is_known(sig):
-            ctx.excluded_known[sig] += 1
-            ctx.known_seen.setdefault(sig, {"case": dst, "message": msg})
-            continue
-        ctx.violations.append({"part": "fuzz:" + target, "signature": sig, "message": msg, "replay": dst})
-        print("VIOLATION property=%s replay=%s" % (prop, dst), flush=True)
-        print("  fuzz target %s: %s" % (target, msg[:1500]), flush=True)
+        kind = f.split("-")[0]        # crash | timeout | oom | leak
+        out.append({"path": dst, "data": data, "location": loc, "message": msg, "kind": kind})
     ctx.evaluations += done
     shutil.rmtree(work, ignore_errors=True)
-    return stats
+    return stats, out
+
+
+def report_crash_only(ctx, prop, target, crashes):
+    """For the crash-only properties (C12, C19 robustness): every crashing input is a violation unless its panic location is an open finding."""
+    for c in crashes:
+        sig = "%s/panic@%s" % (prop, c["location"]) if c["location"] else "%s/fuzz-%s" % (prop, c["kind"])
+        if ctx.is_known(sig):
+            ctx.excluded_known[sig] += 1
+            ctx.known_seen.setdefault(sig, {"case": c["path"], "message": c["message"]})
+            try:
+                os.remove(c["path"])
+            except OSError:
+                pass
+            continue
+        ctx.violations.append({"part": "fuzz:" + target, "signature": sig, "message": c["message"], "replay": c["path"]})
+        print("VIOLATION property=%s replay=%s" % (prop, c["path"]), flush=True)
+        print("  fuzz target %s: %s" % (target, c["message"][:1500]), flush=True)
 
 
 def replay(target, path, strict=True):
